@@ -125,69 +125,193 @@ theorem run_collect {β : Type} (hd : Handlers) (b : Behaviour β) (m : Method)
 
 /-! ### restarting one stub -/
 
-/-- Configure reads nothing of the mutable state and overwrites both timeouts: its whole
-    outcome depends on the previous state through the collected sync chunks only -/
-theorem dispatch_configure_indep {β : Type} (hd : Handlers) (b : Behaviour β) (d d' : Dyn β)
-    (h : d.syncReq = d'.syncReq) (c r v : Str) (regMs reqMs : Int) :
-    dispatch hd b d (.configure c r v regMs reqMs) = dispatch hd b d' (.configure c r v regMs reqMs) := by
+/-- Every request: what is invoked and answered, and what is left collected, depends on the
+    mutable state through the collected synchronisation chunks only — never on the timeouts. -/
+theorem dispatch_equiv {β : Type} (hd : Handlers) (b : Behaviour β) (d d' : Dyn β)
+    (h : d.syncReq = d'.syncReq) (r : Request β) :
+    (dispatch hd b d r).visible = (dispatch hd b d' r).visible ∧
+    (dispatch hd b d r).dyn.syncReq = (dispatch hd b d' r).dyn.syncReq := by
   obtain ⟨sr, a1, a2⟩ := d
   obtain ⟨sr', a1', a2'⟩ := d'
   simp only at h
   subst h
-  rfl
+  cases r with
+  | configure c rn v regMs reqMs =>
+    simp only [dispatch, takeTimeouts, Outcome.visible]
+    cases configure hd b c rn v
+    exact ⟨trivial, trivial⟩
+  | synchronize pods ctrs more =>
+    simp only [dispatch, synchronize, Outcome.visible]
+    cases hd.bound .synchronize with
+    | none => exact ⟨rfl, rfl⟩
+    | some m => cases more <;> exact ⟨rfl, rfl⟩
+  | shutdown =>
+    simp only [dispatch, Outcome.visible]
+    cases hd.bound .shutdown <;> exact ⟨rfl, rfl⟩
+  | createContainer pod ctr =>
+    simp only [dispatch, Outcome.visible]
+    cases hd.bound .createContainer <;> exact ⟨rfl, rfl⟩
+  | updateContainer pod ctr res =>
+    simp only [dispatch, Outcome.visible]
+    cases hd.bound .updateContainer <;> exact ⟨rfl, rfl⟩
+  | stopContainer pod ctr =>
+    simp only [dispatch, Outcome.visible]
+    cases hd.bound .stopContainer <;> exact ⟨rfl, rfl⟩
+  | updatePodSandbox pod ovh res =>
+    simp only [dispatch, Outcome.visible]
+    cases hd.bound .updatePodSandbox <;> exact ⟨rfl, rfl⟩
+  | stateChange e pod ctr =>
+    simp only [dispatch, stateChange, Outcome.visible]
+    split <;> first
+      | exact ⟨trivial, trivial⟩
+      | exact ⟨rfl, rfl⟩
+      | (simp only [callPod]; split <;> first | exact ⟨trivial, trivial⟩ | exact ⟨rfl, rfl⟩)
+      | (simp only [callPodCtr]; split <;> first | exact ⟨trivial, trivial⟩ | exact ⟨rfl, rfl⟩)
 
-theorem dispatch_configure_syncReq {β : Type} (hd : Handlers) (b : Behaviour β) (d : Dyn β)
-    (c r v : Str) (regMs reqMs : Int) :
-    (dispatch hd b d (.configure c r v regMs reqMs)).dyn.syncReq = d.syncReq := by
-  obtain ⟨sr, a1, a2⟩ := d
-  simp only [dispatch]
+/-- the registration timeout stays positive whatever is requested -/
+theorem dispatch_reg_pos {β : Type} (hd : Handlers) (b : Behaviour β) (d : Dyn β) (r : Request β)
+    (h : 0 < d.regTimeoutNs) : 0 < (dispatch hd b d r).dyn.regTimeoutNs := by
+  cases r with
+  | configure c rn v regMs reqMs =>
+    simp only [dispatch, takeTimeouts]
+    cases configure hd b c rn v
+    show 0 < (if regMs > 0 then regMs * 1000000 else d.regTimeoutNs)
+    split <;> omega
+  | synchronize pods ctrs more =>
+    simp only [dispatch, synchronize]
+    cases hd.bound .synchronize with
+    | none => exact h
+    | some m => cases more <;> exact h
+  | shutdown => simp only [dispatch]; cases hd.bound .shutdown <;> exact h
+  | createContainer pod ctr => simp only [dispatch]; cases hd.bound .createContainer <;> exact h
+  | updateContainer pod ctr res => simp only [dispatch]; cases hd.bound .updateContainer <;> exact h
+  | stopContainer pod ctr => simp only [dispatch]; cases hd.bound .stopContainer <;> exact h
+  | updatePodSandbox pod ovh res => simp only [dispatch]; cases hd.bound .updatePodSandbox <;> exact h
+  | stateChange e pod ctr =>
+    simp only [dispatch, stateChange]
+    split <;> first
+      | exact h
+      | (simp only [callPod]; split <;> exact h)
+      | (simp only [callPodCtr]; split <;> exact h)
 
-theorem runSession_cfg {β : Type} (st : StubState β) (s : Session β) :
-    (runSession st s).1.cfg =
-      dispatch st.handlers s.cfgB st.dyn (.configure s.config s.runtime s.version s.regMs s.reqMs) := by
+theorem runReqs_equiv {β : Type} (hd : Handlers) (reqs : List (Behaviour β × Request β)) (d d' : Dyn β)
+    (h : d.syncReq = d'.syncReq) :
+    (runReqs hd d reqs).1.map Outcome.visible = (runReqs hd d' reqs).1.map Outcome.visible ∧
+    (runReqs hd d reqs).2.syncReq = (runReqs hd d' reqs).2.syncReq := by
+  induction reqs generalizing d d' with
+  | nil => exact ⟨rfl, h⟩
+  | cons br rest ih =>
+    obtain ⟨b, r⟩ := br
+    have h1 := dispatch_equiv hd b d d' h r
+    have h2 := ih (dispatch hd b d r).dyn (dispatch hd b d' r).dyn h1.2
+    simp only [runReqs, List.map_cons]
+    exact ⟨by rw [h1.1, h2.1], h2.2⟩
+
+theorem runReqs_reg_pos {β : Type} (hd : Handlers) (reqs : List (Behaviour β × Request β)) (d : Dyn β)
+    (h : 0 < d.regTimeoutNs) : 0 < (runReqs hd d reqs).2.regTimeoutNs := by
+  induction reqs generalizing d with
+  | nil => exact h
+  | cons br rest ih =>
+    obtain ⟨b, r⟩ := br
+    simp only [runReqs]
+    exact ih _ (dispatch_reg_pos hd b d r h)
+
+theorem finishSession_equiv {β : Type} (st st' : StubState β) (hh : st.handlers = st'.handlers)
+    (s : Session β) (o o' : Outcome β) (hv : o.visible = o'.visible) (hs : o.dyn.syncReq = o'.dyn.syncReq) :
+    (finishSession st s o).1.visible = (finishSession st' s o').1.visible ∧
+    (finishSession st s o).2.handlers = st.handlers ∧
+    (finishSession st s o).2.dyn.syncReq = (finishSession st' s o').2.dyn.syncReq := by
+  obtain ⟨c, r, d⟩ := o
+  obtain ⟨c', r', d'⟩ := o'
+  simp only [Outcome.visible, Prod.mk.injEq] at hv
+  obtain ⟨hc, hr⟩ := hv
+  subst hc
+  subst hr
+  simp only at hs
+  unfold finishSession
+  rw [← hh]
+  cases r with
+  | error e => exact ⟨rfl, rfl, hs⟩
+  | ok rp =>
+    have := runReqs_equiv st.handlers s.reqs d d' hs
+    simp only [SessionOut.visible, Outcome.visible]
+    exact ⟨by rw [this.1], trivial, trivial⟩
+
+/-- a session of a stub that can register: everything visible, and what is left collected,
+    depend on the state through the handler table and the collected chunks only -/
+theorem runSession_equiv {β : Type} (st st' : StubState β) (hh : st.handlers = st'.handlers)
+    (hs : st.dyn.syncReq = st'.dyn.syncReq) (hp : 0 < st.dyn.regTimeoutNs) (hp' : 0 < st'.dyn.regTimeoutNs)
+    (s : Session β) :
+    (runSession st s).1.visible = (runSession st' s).1.visible ∧
+    (runSession st s).2.dyn.syncReq = (runSession st' s).2.dyn.syncReq := by
   unfold runSession
-  dsimp only
-  cases hres : (dispatch st.handlers s.cfgB st.dyn
-      (Request.configure s.config s.runtime s.version s.regMs s.reqMs)).result <;> rfl
+  simp only [registers, hp, hp', decide_true, if_true]
+  have hd := dispatch_equiv st.handlers s.cfgB st.dyn st'.dyn hs
+    (.configure s.config s.runtime s.version s.regMs s.reqMs)
+  have := finishSession_equiv st st' hh s _ _ hd.1 hd.2
+  rw [← hh]
+  exact ⟨this.1, this.2.2⟩
 
-theorem dispatch_configure_eq {β : Type} (hd : Handlers) (b : Behaviour β) (d : Dyn β)
-    (c r v : Str) (regMs reqMs : Int) :
-    (dispatch hd b d (.configure c r v regMs reqMs)).calls = (configure hd b c r v).1 ∧
-    (dispatch hd b d (.configure c r v regMs reqMs)).result = (configure hd b c r v).2.map Reply.configure := by
-  simp only [dispatch]
-  cases configure hd b c r v
-  exact ⟨trivial, trivial⟩
-
-theorem runSession_indep {β : Type} (st st' : StubState β) (hh : st.handlers = st'.handlers)
-    (hs : st.dyn.syncReq = st'.dyn.syncReq) (s : Session β) : runSession st s = runSession st' s := by
-  unfold runSession
-  rw [hh, dispatch_configure_indep st'.handlers s.cfgB st.dyn st'.dyn hs]
+theorem finishSession_state {β : Type} (st : StubState β) (s : Session β) (o : Outcome β) :
+    (finishSession st s o).2.handlers = st.handlers ∧
+    (o.dyn.syncReq = none → (finishSession st s o).2.dyn.syncReq = none) ∧
+    (0 < o.dyn.regTimeoutNs → 0 < (finishSession st s o).2.dyn.regTimeoutNs) := by
+  unfold finishSession
+  cases hres : o.result with
+  | error e => exact ⟨rfl, id, id⟩
+  | ok rp => exact ⟨rfl, fun _ => rfl, fun h => runReqs_reg_pos st.handlers s.reqs o.dyn h⟩
 
 theorem runSession_state {β : Type} (st : StubState β) (s : Session β) :
     (runSession st s).2.handlers = st.handlers ∧
-    (st.dyn.syncReq = none → (runSession st s).2.dyn.syncReq = none) := by
+    (st.dyn.syncReq = none → (runSession st s).2.dyn.syncReq = none) ∧
+    (0 < st.dyn.regTimeoutNs → 0 < (runSession st s).2.dyn.regTimeoutNs) := by
   unfold runSession
-  dsimp only
-  cases hres : (dispatch st.handlers s.cfgB st.dyn
-      (Request.configure s.config s.runtime s.version s.regMs s.reqMs)).result with
-  | error e => exact ⟨rfl, fun h => by simp only [dispatch_configure_syncReq, h]⟩
-  | ok r => exact ⟨rfl, fun _ => rfl⟩
+  by_cases hr : registers st.dyn = true
+  · simp only [hr, if_true]
+    have hf := finishSession_state st s
+      (dispatch st.handlers s.cfgB st.dyn (.configure s.config s.runtime s.version s.regMs s.reqMs))
+    have he := dispatch_equiv st.handlers s.cfgB st.dyn st.dyn rfl
+      (.configure s.config s.runtime s.version s.regMs s.reqMs)
+    refine ⟨hf.1, fun h => hf.2.1 ?_, fun h => hf.2.2 (dispatch_reg_pos _ _ _ _ h)⟩
+    simp only [dispatch, takeTimeouts]
+    cases configure st.handlers s.cfgB s.config s.runtime s.version
+    exact h
+  · simp only [hr]
+    exact ⟨rfl, id, id⟩
 
 theorem runSessions_state {β : Type} (st : StubState β) (ss : List (Session β)) :
     (runSessions st ss).2.handlers = st.handlers ∧
-    (st.dyn.syncReq = none → (runSessions st ss).2.dyn.syncReq = none) := by
+    (st.dyn.syncReq = none → (runSessions st ss).2.dyn.syncReq = none) ∧
+    (0 < st.dyn.regTimeoutNs → 0 < (runSessions st ss).2.dyn.regTimeoutNs) := by
   induction ss generalizing st with
-  | nil => exact ⟨rfl, id⟩
+  | nil => exact ⟨rfl, id, id⟩
   | cons s rest ih =>
     have h1 := runSession_state st s
     have h2 := ih (runSession st s).2
     simp only [runSessions]
-    exact ⟨h2.1.trans h1.1, fun h => h2.2 (h1.2 h)⟩
+    exact ⟨h2.1.trans h1.1, fun h => h2.2.1 (h1.2.1 h), fun h => h2.2.2 (h1.2.2 h)⟩
 
 theorem runSessions_append {β : Type} (st : StubState β) (pre : List (Session β)) (s : Session β) :
     (runSessions st (pre ++ [s])).1 = (runSessions st pre).1 ++ [(runSession (runSessions st pre).2 s).1] := by
   induction pre generalizing st with
   | nil => simp [runSessions]
   | cons p rest ih => simp [runSessions, ih]
+
+theorem runSession_cfg {β : Type} (st : StubState β) (s : Session β) (hp : 0 < st.dyn.regTimeoutNs) :
+    (runSession st s).1.cfg =
+      dispatch st.handlers s.cfgB st.dyn (.configure s.config s.runtime s.version s.regMs s.reqMs) := by
+  unfold runSession finishSession
+  simp only [registers, hp, decide_true, if_true]
+  cases hres : (dispatch st.handlers s.cfgB st.dyn
+      (Request.configure s.config s.runtime s.version s.regMs s.reqMs)).result <;> rfl
+
+theorem dispatch_configure_eq {β : Type} (hd : Handlers) (b : Behaviour β) (d : Dyn β)
+    (c r v : Str) (regMs reqMs : Int) :
+    (dispatch hd b d (.configure c r v regMs reqMs)).calls = (configure hd b c r v).1 ∧
+    (dispatch hd b d (.configure c r v regMs reqMs)).result = (configure hd b c r v).2.map Reply.configure ∧
+    (dispatch hd b d (.configure c r v regMs reqMs)).dyn = takeTimeouts d regMs reqMs := by
+  simp only [dispatch]
+  cases configure hd b c r v
+  exact ⟨trivial, trivial, trivial⟩
 
 end Nri.Lemmas.Stub
